@@ -53,12 +53,7 @@ impl<C: Config, Q: Query> Snapshot<C, Q> {
     ) {
         let wait_group = waitgroup::WaitGroup::new();
 
-        let pedantic_repair = match caller_information.kind() {
-            CallerKind::Query(query_caller) => query_caller.pedantic_repair(),
-            CallerKind::BackwardProjectionPropagation => true,
-
-            _ => false,
-        };
+        let pedantic_repair = caller_information.pedantic_repair();
 
         let tracked_engine = TrackedEngine {
             engine: self.engine().clone(),
